@@ -183,3 +183,33 @@ func corrOf(f *ssa.Function) *corrInfo {
 func corrConds(f *ssa.Function) map[ssa.Value]int { return corrOf(f).idx }
 
 func corrResets(f *ssa.Function) map[*ssa.BasicBlock][]int { return corrOf(f).resets }
+
+// blocksBetween: blocks dominated by from that lie on a path from `from` to
+// `to` (both inclusive).
+func blocksBetween(from, to *ssa.BasicBlock) map[*ssa.BasicBlock]bool {
+	fwd := map[*ssa.BasicBlock]bool{}
+	var walk func(b *ssa.BasicBlock)
+	walk = func(b *ssa.BasicBlock) {
+		if fwd[b] || !(b == from || from.Dominates(b)) {
+			return
+		}
+		fwd[b] = true
+		for _, s := range b.Succs {
+			walk(s)
+		}
+	}
+	walk(from)
+	out := map[*ssa.BasicBlock]bool{}
+	var back func(b *ssa.BasicBlock)
+	back = func(b *ssa.BasicBlock) {
+		if out[b] || !fwd[b] {
+			return
+		}
+		out[b] = true
+		for _, p := range b.Preds {
+			back(p)
+		}
+	}
+	back(to)
+	return out
+}
